@@ -71,6 +71,13 @@ def _get_local_ips() -> Iterator[str]:
                 yield ip.ip
 
 
+def _copy_options(options: Dict[str, object]) -> Dict[str, object]:
+    """Copy config options, including the lists of values in them"""
+
+    return {option: value[:] if isinstance(value, list) else value
+            for option, value in options.items()}
+
+
 class ConfigParseError(ValueError):
     """Configuration parsing exception"""
 
@@ -96,7 +103,7 @@ class SSHConfig:
         self._path = Path()
         self._line_no = 0
         self._matching = True
-        self._options = self._last_options.copy()
+        self._options = _copy_options(self._last_options)
         self._tokens: Dict[str, str] = {}
 
         self.loaded = False
@@ -488,7 +495,7 @@ class SSHConfig:
     def get_options(self, reload: bool) -> Dict[str, object]:
         """Return options to base a new config object on"""
 
-        return self._last_options.copy() if reload else self._options.copy()
+        return _copy_options(self._last_options if reload else self._options)
 
     @classmethod
     def load(cls, last_config: Optional['SSHConfig'],
